@@ -183,6 +183,43 @@ def list_laws(frame, ego_q, n, kinds):
     return Out(parts=parts, obs={"kept": [ix[0] if ix else None for ix in idx], "wide": len(out_w)})
 
 
+def pose_history(ego_q, ego_q2, kinds):
+    """The same map-frame object instances filtered under one ego pose and then under another: the second answer must
+    equal the specification for the second pose (no state carried between calls, no attribute written on the objects)."""
+    tl = TARGETSETS["car_ped"]
+    p = _lists(tl, kinds)
+    is_gt = flag("is_gt")
+    # the scene is fixed in the map frame; the ego looks at it from two poses
+    mx, my = real("obj_map_x", -200, 200), real("obj_map_y", -200, 200)
+    label = choose("o_label", [CAR, PED, UNK])
+    conf = real("o_conf", 0, 1)
+    if is_gt:
+        assume(conf == 1)
+    obj = DynamicObject(0, FrameID.MAP, (mx, my, 0.0), build.mkrot(), Shape(ShapeType.BOUNDING_BOX, (2.0, 4.0, 1.5)), None,
+                        conf, Label(label, label.value), pointcloud_num=10, uuid="u1")
+    attrs_before = set(vars(obj))
+    outs, specs = [], []
+    for k, q in enumerate((ego_q, ego_q2)):
+        t = (real(f"ego{k}_tx", -300, 300), real(f"ego{k}_ty", -300, 300), 0.0)
+        M = build.models.q_to_matrix(tuple(Fraction(v) for v in EGO_Q[q]))
+        transforms = TransformDict(HomogeneousMatrix(t, build.mkrot(EGO_Q[q]), FrameID.BASE_LINK, FrameID.MAP))
+        outs.append(OF.filter_objects([obj], is_gt, target_labels=tl, transforms=transforms, **p))
+
+        class O:
+            pass
+
+        o = O()
+        dx, dy = mx - t[0], my - t[1]  # ego-relative coordinates: R^T (p - t)
+        o.ex = build.const(M[0][0]) * dx + build.const(M[1][0]) * dy
+        o.ey = build.const(M[0][1]) * dx + build.const(M[1][1]) * dy
+        o.label, o.conf, o.points, o.uuid, o.name, o.attributes = label, conf, 10, "u1", label.value, []
+        specs.append(spec_keep(o, is_gt, tl, p))
+    parts = {"first_pose_matches_spec": L.Iff(len(outs[0]) == 1, specs[0]),
+             "second_pose_matches_spec": L.Iff(len(outs[1]) == 1, specs[1]),
+             "no_attribute_written_on_the_object": set(vars(obj)) == attrs_before}
+    return Out(parts=parts, obs={"kept": [len(o_) for o_ in outs]})
+
+
 def results_filter(frame, ego_q, kinds, has_gt):
     """filter_object_results: a result is removed when either its estimate or its ground truth fails."""
     scene = Scene(frame, ego_q)
@@ -248,6 +285,10 @@ def obligations(pid, tier):
         Obligation("predicate", predicate, cases=pred, desc="filter_objects on one object equals the specification predicate"),
         Obligation("list_laws", list_laws, cases=lists,
                    desc="order-preserving sub-list, idempotent, no mutation, widening never removes a kept object"),
+        Obligation("pose_history", pose_history,
+                   cases=[dict(ego_q=a, ego_q2=b, kinds=k) for a, b in [("id", "yaw_3_4_5"), ("yaw_neg", "yaw90")]
+                          for k in [("xy",), ("dist",)] + ([] if quick else [("xy", "conf"), ("dist", "points")])],
+                   desc="the same object instances filtered under two different ego poses"),
         Obligation("results_filter", results_filter, cases=resf, extras=lazy_extras,
                    desc="filter_object_results keeps a result iff estimate and ground truth both pass"),
         Obligation("roi_objects", roi_objects, cases=[dict(kinds=k) for k in [(), ("conf",), ("uuid",), ("conf", "uuid")]],
